@@ -335,7 +335,7 @@ def nat_parallelize(h):
                 row['seen'] = row.get('seen', 0) + 1
                 row['tags'].append('x')          # a nested value edited in place: "exactly once" must hold for it too
             preds = {'default': None, 'all': (lambda r: True), 'none': (lambda r: False), 'some': (lambda r: r['i'] % 3 == 0),
-                     'late': (lambda r: r['i'] >= n - 2)}
+                     'late': (lambda r: r['i'] >= n - 2), 'early': (lambda r: r['i'] < 20)}
             rows = [{'i': i, 'seen': 0, 'tags': []} for i in range(n)]
             res = Flow(rows, parallelize(f, num_processors=N, predicate=preds[pattern])).results(on_error=None)[0]
             conn.send(('ok', res))
@@ -343,7 +343,9 @@ def nat_parallelize(h):
             conn.send(('exc', repr(e)))
     combos = [(N, n, p) for N in (1, 2, 3, 4) for n in (0, 1, 5, 12) for p in ('default', 'all', 'none', 'some', 'late')]
     h.rng.shuffle(combos)
-    for N, n, pattern in combos[:h.n(14, 80)]:
+    # a long tail of unselected rows behind the last selected one (they bypass the workers: nothing may overtake them at the end)
+    long_tail = [(N, 4000, 'early') for N in (1, 2, 4)]
+    for N, n, pattern in long_tail + combos[:h.n(14, 80)]:
         if n == 0:
             continue
         a, b = mp.Pipe()
@@ -353,7 +355,7 @@ def nat_parallelize(h):
         if a.poll(60):
             got = a.recv()
             sel = {'default': lambda i: True, 'all': lambda i: True, 'none': lambda i: False, 'some': lambda i: i % 3 == 0,
-                   'late': lambda i: i >= n - 2}[pattern]
+                   'late': lambda i: i >= n - 2, 'early': lambda i: i < 20}[pattern]
             want = sorted([(i, 1 if sel(i) else 0, 1 if sel(i) else 0) for i in range(n)])
             if got[0] == 'ok':
                 out = sorted((r['i'], r['seen'], len(r['tags'])) for r in got[1][0]) if got[1] else []
